@@ -85,5 +85,8 @@ try:
     json.dump(meta, open(dst + "/meta.json", "w"), indent=1)
     print(json.dumps({k: meta.get(k) for k in ("id", "confirmed", "caught_by", "caught_by_target", "summary")}, indent=1))
 finally:
-    sh("git -C /repo worktree remove --force %s" % repo)
-    shutil.rmtree(base, ignore_errors=True)
+    if os.environ.get("KEEP"):      # leave /tmp/mut/<sid>/{repo,verif} for inspection; remove by hand afterwards
+        print("kept", base)
+    else:
+        sh("git -C /repo worktree remove --force %s" % repo)
+        shutil.rmtree(base, ignore_errors=True)
